@@ -580,7 +580,7 @@ static std::string op_reply(const std::vector<std::string> &w)
 }
 
 struct TlOp {
-    char kind;       // a = writeArray, l = literal write, w = raw_write, h = hasNext, r = read, p = peak
+    char kind;       // a = writeArray, l = literal write, w = raw_write, h = hasNext, r = guarded read, R = read, p = peak
     int  k;
     bytes addr, raw;
     Args A;
@@ -630,7 +630,7 @@ static std::string op_tlink(const std::vector<std::string> &w)
             // raw_write does not honour MaxMsg on the unchanged tree (defect F6 of C06): stay inside
             if(o.raw.size() > maxmsg) return "bad-op";
             for(int i = 0; i < 8; ++i) o.raw.push_back(0);
-        } else if(!strchr("hrp", o.kind)) return "bad-op";
+        } else if(!strchr("hrRp", o.kind)) return "bad-op";
     }
     rtosc::ThreadLink *tl = new rtosc::ThreadLink(maxmsg, nmsgs);
     unsigned writes = 0, reads = 0, has = 0, empty = 0;
@@ -646,6 +646,9 @@ static std::string op_tlink(const std::vector<std::string> &w)
             case 'r':
                 if(rte::tl_has_next(tl, (o.k & 1) ? 1 : 0)) { total += rte::tl_read(tl, o.k & 3, &sum); ++reads; }
                 else ++empty;
+                break;
+            case 'R':   // read without asking hasNext first (an empty ring yields a zero-length read)
+                total += rte::tl_read(tl, o.k & 3, &sum); ++reads;
                 break;
             case 'p': total += rte::tl_peak(tl) ? 1 : 0; break;
         }
